@@ -43,25 +43,15 @@ inductive Owner where
   | input | output
   deriving DecidableEq, Repr, Inhabited
 
-/-- canonical sparse cell store: strictly increasing offsets -/
-def setCell {α : Type} (off : Nat) (v : α) : List (Nat × α) → List (Nat × α)
-  | [] => [(off, v)]
-  | (o, w) :: rest =>
-    if off < o then (off, v) :: (o, w) :: rest
-    else if off = o then (o, v) :: rest
-    else (o, w) :: setCell off v rest
-
-def getCell {α : Type} (off : Nat) : List (Nat × α) → Option α
-  | [] => none
-  | (o, w) :: rest => if off = o then some w else getCell off rest
-
 structure Block (F : Type) where
   ty : ElemTy
-  len : Nat
-  cells : List (Nat × Val F)
+  /-- one entry per element; `none` = allocated but never written -/
+  cells : List (Option (Val F))
   owner : Owner
   live : Bool
   deriving Repr, Inhabited
+
+def Block.len {F : Type} (b : Block F) : Nat := b.cells.length
 
 structure TensorRec (F : Type) where
   order : Nat
@@ -123,9 +113,14 @@ def readBlock (σ : State F) (b : Nat) (off : Int) : Except Err (Val F) :=
   | some blk =>
     if !blk.live then .error .useAfterFree
     else if off < 0 || off ≥ blk.len then .error .oob
-    else match getCell off.toNat blk.cells with
-      | none => .error .uninit
-      | some v => if hasElemTy blk.ty v then chkVal v else .error .typeError
+    else match blk.cells[off.toNat]? with
+      | some (some v) => if hasElemTy blk.ty v then chkVal v else .error .typeError
+      | _ => .error .uninit
+
+def isPtrVal : Val F → Bool
+  | .ptr _ _ => true
+  | .null => true
+  | _ => false
 
 inductive Num (F : Type) where
   | i (v : Int)
@@ -202,7 +197,7 @@ def evalE (σ : State F) : Expr F → Except Err (Val F)
       | some tr =>
         if a == "dimensions" then .ok (.ptr tr.dimsBlk 0)
         else if a == "indices" then .ok (.indices k)
-        else if a == "vals" then .ok tr.vals
+        else if a == "vals" then (if isPtrVal tr.vals then .ok tr.vals else .error .typeError)
         else .error .typeError
     | _ => .error .typeError
   | .idx t i => do
@@ -220,7 +215,10 @@ def evalE (σ : State F) : Expr F → Except Err (Val F)
       | none => .error .null
       | some tr =>
         match tr.slots[l]? with
-        | some (some (p, c)) => if j = 0 then .ok p else if j = 1 then .ok c else .error .oob
+        | some (some (p, c)) =>
+          if j = 0 then (if isPtrVal p then .ok p else .error .typeError)
+          else if j = 1 then (if isPtrVal c then .ok c else .error .typeError)
+          else .error .oob
         | _ => .error .oob
     | _, _ => .error .typeError
   | .intLit v => chkInt v
@@ -297,13 +295,13 @@ def convElem (ty : ElemTy) (v : Val F) : Except Err (Val F) :=
   | .float, .int i => .ok (.flt (FloatOps.ofInt i))
   | _, _ => .error .typeError
 
-def setVar (vars : List (VarRec F)) (x : String) (v : Val F) : List (VarRec F) :=
-  vars.map fun r => if r.name == x then { r with val := some v } else r
+/-- update the first record named `x` (the one `lookupVar` finds) -/
+def setVarOpt (vars : List (VarRec F)) (x : String) (v : Option (Val F)) : List (VarRec F) :=
+  match vars with
+  | [] => []
+  | r :: rest => if r.name == x then { r with val := v } :: rest else r :: setVarOpt rest x v
 
-def isPtrVal : Val F → Bool
-  | .ptr _ _ => true
-  | .null => true
-  | _ => false
+def setVar (vars : List (VarRec F)) (x : String) (v : Val F) : List (VarRec F) := setVarOpt vars x (some v)
 
 def store (σ : State F) (loc : Loc) (v : Val F) : Except Err (State F) :=
   match loc with
@@ -322,7 +320,7 @@ def store (σ : State F) (loc : Loc) (v : Val F) : Except Err (State F) :=
       else if off < 0 || off ≥ blk.len then .error .oob
       else do
         let v' ← convElem blk.ty v
-        .ok { σ with heap := σ.heap.set b { blk with cells := setCell off.toNat v' blk.cells } }
+        .ok { σ with heap := σ.heap.set b { blk with cells := blk.cells.set off.toNat (some v') } }
   | .slot t l k =>
     match σ.tensors[t]? with
     | none => .error .null
@@ -354,7 +352,7 @@ def doAlloc (σ : State F) (t : Ty) (n : Val F) : Except Err (State F × Val F) 
   | .int k =>
     if k < 0 then .error .badAlloc
     else
-      let blk : Block F := ⟨et, k.toNat, [], .output, true⟩
+      let blk : Block F := ⟨et, List.replicate k.toNat none, .output, true⟩
       .ok ({ σ with heap := σ.heap ++ [blk] }, .ptr σ.heap.length 0)
   | _ => .error .typeError
 
@@ -372,13 +370,13 @@ def doRealloc (σ : State F) (old : Val F) (t : Ty) (n : Val F) : Except Err (St
         else if blk.owner == .input then .error .writeInput
         else if blk.ty ≠ et then .error .typeError
         else
-          let nb : Block F := ⟨et, k.toNat, blk.cells.filter (fun c => c.1 < k.toNat), .output, true⟩
+          let nb : Block F := ⟨et, blk.cells.take k.toNat ++ List.replicate (k.toNat - blk.cells.length) none, .output, true⟩
           let heap' := (σ.heap.set b { blk with live := false }) ++ [nb]
           .ok ({ σ with heap := heap' }, .ptr σ.heap.length 0)
   | .null, .int k =>
     if k < 0 then .error .badAlloc
     else
-      let blk : Block F := ⟨et, k.toNat, [], .output, true⟩
+      let blk : Block F := ⟨et, List.replicate k.toNat none, .output, true⟩
       .ok ({ σ with heap := σ.heap ++ [blk] }, .ptr σ.heap.length 0)
   | _, _ => .error .typeError
 
@@ -398,7 +396,7 @@ def evalRhs (σ : State F) : Expr F → Except Err (State F × Val F)
 def declare (σ : State F) (x : String) (t : Ty) (v : Option (Val F)) : Except Err (State F) :=
   match lookupVar σ.vars x with
   | some r =>
-    if r.ty = t then .ok { σ with vars := σ.vars.map fun r => if r.name == x then { r with val := v } else r }
+    if r.ty = t then .ok { σ with vars := setVarOpt σ.vars x v }
     else .error .redeclared
   | none => .ok { σ with vars := σ.vars ++ [⟨x, t, v⟩] }
 
